@@ -50,8 +50,10 @@ def log(*a):
 def prepare(need_go=True):
     """factgen + harness build against /repo's current tree. Returns (ok, message)."""
     os.makedirs(BIN, exist_ok=True)
-    if not os.path.exists(os.path.join(GO, "go.sum")) or True:
-        shutil.copyfile(os.path.join(REPO, "go.sum"), os.path.join(GO, "go.sum"))
+    shutil.copyfile(os.path.join(REPO, "go.sum"), os.path.join(GO, "go.sum"))
+    gomod = "module verif\n\ngo 1.15\n\nrequire github.com/EdgeCast/vflow v0.0.0\n\nreplace github.com/EdgeCast/vflow => %s\n" % REPO
+    if open(os.path.join(GO, "go.mod")).read() != gomod:
+        open(os.path.join(GO, "go.mod"), "w").write(gomod)
     t0 = time.time()
     rc, out, err = sh(["go", "build", "-o", os.path.join(BIN, "factgen"), "./cmd/factgen"], cwd=GO, env=GOENV)
     if rc != 0:
@@ -110,6 +112,35 @@ def module_closure(mod):
 
 # ---------------------------------------------------------------- correspondence
 
+RUNNERS = {}   # kind -> {"pkg": "./vflow", "test": "TestVerifX", "race": bool}: cases run by a verif-tagged test in /repo
+
+
+def exec_lines(kind, chunk, env):
+    """one process over the chunk of case lines: (returncode, stdout, stderr)."""
+    rn = RUNNERS.get(kind)
+    if rn is None:
+        p = subprocess.run(["bash", "-c", "ulimit -v 8000000; exec %s run %s" % (CORR, kind)], input=chunk,
+                           capture_output=True, text=True, env=env)
+        return p.returncode, p.stdout, p.stderr
+    os.makedirs(WORK, exist_ok=True)
+    tag = "%s-%d-%d" % (kind, os.getpid(), abs(hash(chunk)) % 10**9)
+    fin, fout = os.path.join(WORK, tag + ".in"), os.path.join(WORK, tag + ".out")
+    open(fin, "w").write(chunk)
+    if os.path.exists(fout):
+        os.remove(fout)
+    e = dict(env, VERIF_IN=fin, VERIF_OUT=fout, VERIF_KIND=kind)
+    cmd = ["go", "test", "-tags", "verif", "-vet=off", "-count=1", "-run", "^%s$" % rn["test"]]
+    if rn.get("race"):
+        cmd.append("-race")
+    cmd += ["-timeout", rn.get("timeout", "20m"), rn["pkg"]]
+    p = subprocess.run(cmd, cwd=REPO, env=e, capture_output=True, text=True)
+    out = open(fout).read() if os.path.exists(fout) else ""
+    for f in (fin, fout):
+        if os.path.exists(f):
+            os.remove(f)
+    return p.returncode, out, (p.stdout + p.stderr)[-3000:]
+
+
 def run_go(kind, lines, watchdog_ms=None, extra_env=None):
     """Run the real code on case lines; restart after hangs/crashes.
     Returns list of (out, verdict) or None for lines not executed."""
@@ -124,8 +155,8 @@ def run_go(kind, lines, watchdog_ms=None, extra_env=None):
     while start < len(lines) and guard < 400:
         guard += 1
         chunk = "\n".join(lines[start:]) + "\n"
-        p = subprocess.run(["bash", "-c", "ulimit -v 8000000; exec %s run %s" % (CORR, kind)], input=chunk,
-                           capture_output=True, text=True, env=env)
+        p = type("P", (), {})()
+        p.returncode, p.stdout, p.stderr = exec_lines(kind, chunk, env)
         outs = p.stdout.split("\n")
         if outs and outs[-1] == "":
             outs.pop()
